@@ -4,3 +4,4 @@ INVARIANT AllSub
 INVARIANT Complete
 INVARIANT OrderAgrees
 CHECK_DEADLOCK FALSE
+INVARIANT FlipFilesOK
